@@ -116,7 +116,7 @@ def rows():
                 exp = ("bytes", a.to_bytes(bs or nb, order))
             add("bytes", "to_bytes", a, (bs, order), exp)
         add("bytes", "to_bytes", a, (0, "middle"), R("ValueError"))
-        for p in (3, 5, 7, 251, 65537):
+        for p in (3, 5, 7, 251, 65537, -3, -4, -5, -65537):
             add("nt", "fail_if_divisible_by", a, (p,), R("ValueError") if a % p == 0 else ("none",))
         add("nt", "fail_if_divisible_by", a, (0,), R("ZeroDivisionError"))
     for n in (0, 1, 2, 3, 255, 256, (1 << 32) + 1, (1 << 53) + 1, W - 1, SQ, (1 << 520) + 3):
@@ -314,8 +314,10 @@ class Backend(object):
             return ("bool", v)
         if isinstance(v, int):
             return ("int", v)
-        if isinstance(v, (bytes, bytearray)):
-            return ("bytes", bytes(v))
+        if isinstance(v, bytearray):
+            return ("bytearray", bytes(v))          # the output type is part of the result (C16: hashable bytes in every back-end)
+        if isinstance(v, bytes):
+            return ("bytes", v)
         if v is None:
             return ("none",)
         return ("other", repr(v))
